@@ -566,7 +566,7 @@ func runC14(env *run.Env, c *c14Case) c14Result {
 		return res
 	}
 	if r.Exit != 0 {
-		res.Inconclusive = "pair-rejected"
+		res.Inconclusive = "pair-rejected:" + errorShape(r.Stderr)
 		return res
 	}
 	res.Script = r.Stdout
